@@ -66,8 +66,15 @@ def _setup():
         jax.ShapeDtypeStruct((2,), jnp.float32),
         'ij,j->i',
     )
+    # an operator on which no configured solver converges (skew-symmetric: CG breaks down at once): its lazy inverse
+    # raises exactly when the configuration it captured says solver_throw=True
+    hard = DenseBlockDiagonalOperator(
+        jnp.array([[0.0, 1.0], [-1.0, 0.0]], dtype=jnp.float32),
+        jax.ShapeDtypeStruct((2,), jnp.float32),
+        'ij,j->i',
+    )
     _state.update(dict(jax=jax, jnp=jnp, Config=Config, solvers=solvers, callbacks=callbacks,
-                       fired=fired, op=op))
+                       fired=fired, op=op, hard=hard))
     return _state
 
 
@@ -166,6 +173,7 @@ class _Ctx:
                 elif a == 'CreateInv':
                     inv = st['op'].I
                     self.driver.invs.append(inv)
+                    self.driver.hard_invs.append(st['hard'].I)        # created at the same point: same capture
                     self.outbox.put({'cap': _project(inv.config)})
                 elif a == 'ApplyInv':
                     inv = self.driver.invs[cmd['n'] - 1]
@@ -184,6 +192,17 @@ class _Ctx:
                         out['solver'] = {500: 0, 7: 1, 11: 2}.get(steps, 99)
                     elif len(fired) > 1:
                         out['fired'] = 98
+                    # the effect of the captured solver_throw: a solve that cannot converge raises or returns
+                    hinv = self.driver.hard_invs[cmd['n'] - 1]
+                    try:
+                        with contextlib.redirect_stdout(io.StringIO()):
+                            z = hinv(st['jnp'].array([1.0, 2.0], dtype=st['jnp'].float32))
+                            st['jax'].block_until_ready(z)
+                            st['jax'].effects_barrier()
+                        out['raised'] = 0
+                    except Exception:
+                        out['raised'] = 1
+                    del st['fired'][:]
                     self.outbox.put(out)
                 elif a == 'Read':
                     self.outbox.put({'val': _project(Config.instance())})
@@ -214,6 +233,7 @@ class _Driver:
     def __init__(self) -> None:
         self.ctxs = {c: _Ctx(self, c) for c in range(NCTX)}
         self.invs: list = []
+        self.hard_invs: list = []
         self.status = {c: 'idle' for c in range(NCTX)}
         # context 0 is the main context: a fresh thread, i.e. a fresh (default) context
         self.ctxs[0].thread = threading.Thread(target=self.ctxs[0].main, daemon=True)
@@ -247,6 +267,7 @@ class _Driver:
         out['cap'] = res.get('cap', {'solver': -1, 'throw': -1, 'cb': -1})
         out['fired'] = res.get('fired', -1)
         out['solver'] = res.get('solver', -1)
+        out['raised'] = res.get('raised', -1)
         out['vals'] = self.observe()
         return out
 
@@ -441,6 +462,11 @@ def binding_selftest(traces: list[dict], rng: random.Random) -> list[dict]:
             e['cap'] = dict(e['cap'], throw=1 - e['cap']['throw'] if e['cap']['throw'] in (0, 1) else 0)
             c['id'], c['expect'] = f'selftest-capture-{i}', ['captured_at_apply']
             out.append(c)
+            c = copy.deepcopy(t)
+            e = c['events'][rng.choice(app)]
+            e['raised'] = 1 - e['raised']
+            c['id'], c['expect'] = f'selftest-throw-{i}', ['throw_used']
+            out.append(c)
     return out
 
 
@@ -508,16 +534,19 @@ def run(tier: str, seed: int) -> int:
     # ---- stage 2: execution on real threads / contexts
     traces = fx.replay('c19', 'execute', cases, procs=fx.NPROC, chunksize=8)
     # ---- stage 3: TLC validates the recorded histories
-    selftests = binding_selftest(traces, random.Random(seed + 5))
-    verdicts, tv = validate_traces(traces + [{k: v for k, v in s.items() if k != 'expect'} for s in selftests])
+    verdicts, tv = validate_traces(traces)
+    # corrupted copies of ACCEPTED histories only (a corrupted observation of a history that is already rejected could
+    # happen to repair it)
+    good = {v['id'] for v in verdicts if not v['bad']}
+    selftests = binding_selftest([t for t in traces if t['id'] in good], random.Random(seed + 5))
+    sverdicts, stv = validate_traces([{k: v for k, v in s.items() if k != 'expect'} for s in selftests]) if selftests else ([], None)
     st = {}
     expect = {s['id']: s['expect'] for s in selftests}
-    for v in [v for v in verdicts if v['id'] in expect]:
+    for v in sverdicts:
         kind = v['id'].split('-')[1]
         rec = st.setdefault(kind, {'corrupted': 0, 'rejected': 0})
         rec['corrupted'] += 1
         rec['rejected'] += bool({b['clause'] for b in v['bad']} & set(expect[v['id']]))
-    verdicts = [v for v in verdicts if v['id'] not in expect]
     for kind, rec in st.items():
         # a trace specification that accepts corrupted recordings decides nothing: machinery failure, not a verdict
         if rec['rejected'] < (rec['corrupted'] if kind != 'nohook' else (4 * rec['corrupted']) // 5):
